@@ -1,6 +1,6 @@
 """C16 fixed-size chunk discipline: spec/ChunkGeom.tla (the geometry of a chunked set, checked by TLC
-for every key length 1..250 with every value length 0..5000 and every length within 2 of a chunk
-boundary up to 999 chunks), spec/ChunkGeomTrace.tla (validation of the store requests the real
+for every key length 1..250 with every value length 0..1200 (quick) or 0..5000 (thorough) and every
+length within 2 of a chunk boundary up to 999 chunks), spec/ChunkGeomTrace.tla (validation of the store requests the real
 chunked handler sent to a fake backend, driver chunk-geom)."""
 import json
 import os
@@ -195,4 +195,4 @@ def check(prop, tier, seed):
         "(SlabFit SameSize MetaConst Ceil); implementation: set/add/replace/append/prepend/touch/gat through the real chunked handler for all %d key lengths "
         "at the boundaries of 0,1,2,3,10 and %d chunks%s; every store request the backend received must have the size, name and count ChunkGeom prescribes" % (
             MAX_KEY, dense, DELTA, MAX_CHUNKS, MAX_KEY, MAX_CHUNKS,
-            "" if quick else ", every boundary 1..999 for 25 key lengths, 2000 random cases and every length 0..3p+2 for 3 keys")))
+            "" if quick else ", every boundary 1..999 for 10 key lengths and 1..120 for 15 more, 2000 random cases and every length 0..3p+2 for 3 key lengths")))
